@@ -53,7 +53,9 @@ type c10Case struct {
 	Max        int64   `json:"max_attempts"`
 	Skip       string  `json:"skipper"` // NoSkipper | SkipErr | SkipYes | SkipNo
 	Ref        string  `json:"reference"`
-	RefClass   string  `json:"ref_class"` // as classified by oras ParseReference and the repository's answer
+	RefClass   string  `json:"ref_class"` // as classified by oras ParseReference and the repository's answer (for the statistics; the Coq case computes it itself, see RefParsed / ResolvedDg)
+	RefParsed  string  `json:"ref_parsed,omitempty"`      // ref.Reference as oras parses it (a digest reference: the digest string)
+	ResolvedDg string  `json:"resolved_digest,omitempty"` // String() of the digest of the descriptor the repository resolves to
 	ResolveErr bool    `json:"resolve_error"`
 	Pages      [][]int `json:"pages"` // 0 G, 1 Bd, 2 U, 3 NO
 	ListErr    bool    `json:"list_error"`
@@ -70,6 +72,7 @@ type c10Case struct {
 	SameObjects     bool       `json:"same_option_objects,omitempty"`  // history: the SAME PluginConfig / UserMetadata map objects are passed to every call
 	MutVerifier     bool       `json:"mutating_verifier,omitempty"`    // the verifier writes into the option maps it receives (its own fault; the library must still not mutate and must pass on the caller's maps)
 	Frame           []string   `json:"frame_violations,omitempty"`     // caller-owned objects the library changed during the call
+	Rogue           [][2]int   `json:"rogue_windows,omitempty"`        // family X: the repository ignores the callback's errors and delivers these windows (start, length) of the listing Pages[0], in this order, then returns nil
 	// observation
 	Res      string   `json:"obs_result"`
 	Desc     string   `json:"obs_descriptor"`
@@ -237,6 +240,16 @@ func (r mockRepo) ListSignatures(ctx context.Context, desc ocispec.Descriptor, f
 	w.events = append(w.events, event{'L', 0})
 	if !reflect.DeepEqual(desc, w.resolvedOrig) {
 		w.bad("ListSignatures got a descriptor other than the resolved one")
+	}
+	if len(w.c.Rogue) > 0 {
+		// a repository that does not honour the contract: it drops the callback's error,
+		// delivers the scripted windows (repeated, out of order) and reports success
+		for _, win := range w.c.Rogue {
+			page := make([]ocispec.Descriptor, win[1])
+			copy(page, w.manifest[win[0]:win[0]+win[1]])
+			_ = fn(page)
+		}
+		return nil
 	}
 	pos := 0
 	for _, p := range w.c.Pages {
@@ -504,6 +517,7 @@ func execMock(c *c10Case) (panicked any) {
 	call := func(c *c10Case) (panicked any) {
 		w.script(c)
 		c.RefClass, w.wantRef = classifyRef(c.Ref, w.resolved.Digest.String())
+		c.RefParsed, c.ResolvedDg = w.wantRef, w.resolved.Digest.String()
 		var v notation.Verifier
 		var repo registry.Repository
 		if !c.NilV {
@@ -704,9 +718,30 @@ func caseTerm(id int64, c *c10Case) string {
 	if strings.HasPrefix(outs, "OSig") {
 		outs = "(" + outs + ")"
 	}
-	in := CApp("mk_input", CBool(c.NilV), CBool(c.NilR), CZ(c.Max), c.Skip, c.RefClass, CBool(c.ResolveErr), pagesTerm(c.Pages), CBool(c.ListErr))
+	// a digest reference: the model compares the two digest strings itself (C10_Model.classify);
+	// the other classes are what oras reports
+	refTerm := c.RefClass
+	if c.RefClass == "RDigSame" || c.RefClass == "RDigDiff" {
+		refTerm = CApp("classify", CApp("PDigest", CStr(c.RefParsed)), CStr(c.ResolvedDg))
+	}
+	in := CApp("mk_input", CBool(c.NilV), CBool(c.NilR), CZ(c.Max), c.Skip, refTerm, CBool(c.ResolveErr), pagesTerm(c.Pages), CBool(c.ListErr))
 	obs := CApp("mk_obs", c.Res, c.Desc, outs, logTerm(c.Log), CBool(c.ArgsOK))
 	return CApp("mk_case", CN(id), in, obs)
+}
+
+// rogueTerm prints a case of family X: only the call log is compared (what Verify returns
+// depends on what such a repository returns).
+func rogueTerm(id int64, c *c10Case) string {
+	calls := make([]string, len(c.Rogue))
+	for i, win := range c.Rogue {
+		xs := make([]string, win[1])
+		for j := range xs {
+			xs[j] = kindNames[c.Pages[0][win[0]+j]]
+		}
+		calls[i] = CPair(fmt.Sprint(win[0]), "["+strings.Join(xs, ";")+"]")
+	}
+	d := CApp("mk_dinput", CZ(c.Max), CBool(c.Skip == "NoSkipper"), "["+strings.Join(calls, ";")+"]")
+	return CApp("mk_dcase", CN(id), d, logTerm(c.Log))
 }
 
 // ---------- generators ----------
@@ -767,10 +802,10 @@ func runC10(a *Args) error {
 	prelude := "From NV Require Import Base C10_Model.\n"
 	w := NewCaseWriter(a, "C10", prelude, "case", "run")
 	quick := a.Tier != "thorough"
-	w.Rule = "the real notation.Verify driven by a scripted registry.Repository and Verifier. Family A (exhaustive, seed-independent): every listing of n signatures over {verifies, fails, unfetchable, fails-without-outcome} x every composition of n into non-empty pages x every limit 1..n+1 (quick: n<=3 over 4 kinds exhaustively, plus seeded samples of n=4 over 4 kinds and n=5,6 over {verifies, fails, unfetchable} with limits around the decisive position and the end of the listing; thorough: n<=5 over 4 kinds exhaustively, seeded samples of n=6,7 over 3 kinds with all limits). Family B: empty pages inserted at every position. Family C: nil arguments, non-positive and huge limits, the four SkipVerify behaviours, tag / matching-digest / mismatching-digest / tagless / malformed references (classified by oras ParseReference itself), Resolve and ListSignatures failures, crossed with 8 representative listings. Family D: random listings of up to 14 signatures (mostly failing, so that the limit decides), random pagings with empty pages, random limits. Family H (first): histories of 2-4 Verify calls on ONE verifier and ONE repository instance whose script changes between the calls (pass then fail, fail then pass, limit / reference / resolved digest / skip changed: all ordered pairs of 16 call templates plus random histories of 3-4), each case being the last call judged on its own input. Family F: n=5..8 failing signatures with one verifying / unfetchable / outcome-less signature at EVERY position, limits below / at / beyond it, page breaks before / at / after it; and a good signature with a second odd one before or after it. Family R: 36 rarely used or nearly legal reference spellings (upper-case host, IPv6, tag+digest, several '@', sha512, upper-case hex, trailing space, empty tag or digest) x the digest the repository resolves to (equal, upper-cased, longer, shorter, other algorithm, trailing space, other). Unfetchable signatures fail with four error flavours (plain, errdef.ErrNotFound, fs.ErrNotExist, deadline); empty pages as nil or empty slices; PluginConfig/UserMetadata nil, empty or filled; SkipVerify answering a nil level or (true, err). Family E: the real OCI-layout repository of notation-go/registry, signatures pushed with PushSignature, blobs deleted to make them unfetchable, listing order as delivered by the repository. non-trivial = the listing is reached and holds at least 2 signatures, or the case exercises a skip / pin / limit<=0 rule; distinct = distinct (arguments, reference class, paged listing, limit) tuples"
+	w.Rule = "the real notation.Verify driven by a scripted registry.Repository and Verifier. Family A (exhaustive, seed-independent): every listing of n signatures over {verifies, fails, unfetchable, fails-without-outcome} x every composition of n into non-empty pages x every limit 1..n+1 (quick: n<=3 over 4 kinds exhaustively, plus seeded samples of n=4 over 4 kinds and n=5,6 over {verifies, fails, unfetchable} with limits around the decisive position and the end of the listing; thorough: n<=5 over 4 kinds exhaustively, seeded samples of n=6,7 over 3 kinds with all limits). Family B: empty pages inserted at every position. Family C: nil arguments, non-positive and huge limits, the four SkipVerify behaviours, tag / matching-digest / mismatching-digest / tagless / malformed references (classified by oras ParseReference itself), Resolve and ListSignatures failures, crossed with 8 representative listings. Family D: random listings of up to 14 signatures (mostly failing, so that the limit decides), random pagings with empty pages, random limits. Family H (first): histories of 2-4 Verify calls on ONE verifier and ONE repository instance whose script changes between the calls (pass then fail, fail then pass, limit / reference / resolved digest / skip changed: all ordered pairs of 16 call templates plus random histories of 3-4), each case being the last call judged on its own input. Family F: n=5..8 failing signatures with one verifying / unfetchable / outcome-less signature at EVERY position, limits below / at / beyond it, page breaks before / at / after it; and a good signature with a second odd one before or after it. Family R: 36 rarely used or nearly legal reference spellings (upper-case host, IPv6, tag+digest, several '@', sha512, upper-case hex, trailing space, empty tag or digest) x the digest the repository resolves to (equal, upper-cased, longer, shorter, other algorithm, trailing space, other). Unfetchable signatures fail with four error flavours (plain, errdef.ErrNotFound, fs.ErrNotExist, deadline); empty pages as nil or empty slices; PluginConfig/UserMetadata nil, empty or filled; SkipVerify answering a nil level or (true, err). Family X: a scripted repository that IGNORES the callback's errors (keeps delivering after done / exceeded / failure, repeats pages, delivers out of order): only the call log is observed and compared with the callback model driven over the same invocations (C10_Model.drive); at most N fetches and fetch-then-verify pairing are checked on the observed log. Family E: the real OCI-layout repository of notation-go/registry, signatures pushed with PushSignature, blobs deleted to make them unfetchable, listing order as delivered by the repository. non-trivial = the listing is reached and holds at least 2 signatures, or the case exercises a skip / pin / limit<=0 rule; distinct = distinct (arguments, reference class, paged listing, limit) tuples"
 	w.Assumptions = []string{
 		"Repository.ListSignatures hands the callback consecutive pages in listing order and returns the callback's first error (contract of registry.Repository; the scripted repository and the real OCI-layout repository both do)",
-		"reference classes (invalid / no tag or digest / tag / digest) are those reported by oras registry.ParseReference and ValidateReferenceAsDigest, asked by the harness for every reference string",
+		"reference classes (invalid / no tag or digest / tag / digest) are those reported by oras registry.ParseReference and ValidateReferenceAsDigest, asked by the harness for every reference string; for a digest reference the case carries ref.Reference and the String() of the digest the repository resolves to, and the MODEL compares them (C10_Model.classify)",
 		"a Verifier that returns no error returns a non-nil outcome (a verifier failing WITHOUT an outcome is modelled: kind NO)",
 		"frame check (Go side, every case): PluginConfig / UserMetadata maps of VerifyOptions, the descriptor Resolve returned, the signature manifest descriptors and the page slices are deep-snapshotted before the call; any change by notation.Verify is an implementation violation (footprint frame); every SkipVerify / Verify call must receive option maps with the caller's original content (a verifier that itself writes into them is scripted in some cases: only its own writes are tolerated)",
 		"error classes are recognised by Go type (errors.As), identity of the injected errors, and the fixed message texts of notation.go",
@@ -817,6 +852,31 @@ func runC10(a *Args) error {
 		}
 		if c.MutVerifier {
 			w.Count("mutating_verifier", "yes")
+		}
+		if len(c.Rogue) > 0 {
+			// family X: the log only (judged by dspec_ok / dmodel); wrong arguments are a Go-side violation
+			if !c.ArgsOK {
+				w.ImplViolation(my, "a call received wrong arguments under a repository that ignores the callback's errors: "+strings.Join(c.ArgNotes, "; "), c, "args")
+			}
+			w.Add(my, rogueTerm(my, c), c, key+fmt.Sprintf("|rogue%v", c.Rogue), len(c.Rogue) >= 2)
+			w.Count("family", c.Family)
+			w.Count("rogue_windows", fmt.Sprint(len(c.Rogue)))
+			w.Count("listing_len", fmt.Sprint(n))
+			nf := 0
+			for _, e := range c.Log {
+				if e[0] == 'F' {
+					nf++
+				}
+			}
+			switch {
+			case int64(nf) == c.Max:
+				w.Count("rogue_fetches", "=limit")
+			case int64(nf) < c.Max:
+				w.Count("rogue_fetches", "<limit")
+			default:
+				w.Count("rogue_fetches", ">limit")
+			}
+			return
 		}
 		reaches := !c.NilV && !c.NilR && c.Max > 0 && (c.Skip == "NoSkipper" || c.Skip == "SkipNo") && (c.RefClass == "RTag" || c.RefClass == "RDigSame") && !c.ResolveErr
 		nontriv := (reaches && (n >= 2 || len(c.Prior) > 0)) || (!c.NilV && !c.NilR && (c.Max <= 0 || c.Skip == "SkipYes" || c.RefClass == "RDigDiff" || c.RefClass == "RNone"))
@@ -1253,6 +1313,53 @@ func runC10(a *Args) error {
 			max = math.MaxInt64
 		}
 		emit(listingCase("D", pages, max))
+	}
+
+	// X. a repository that ignores the callback's errors: it keeps delivering pages after the
+	// callback said "done" / "limit exceeded" / failed, repeats pages and delivers them out of
+	// order. The counter lives in the closure, so the bound of N fetches must hold regardless
+	// (theorem C10_callback_never_exceeds); the log is compared with C10_Model.drive.
+	rogue := func(l []int, wins [][2]int, max int64) {
+		c := listingCase("X", [][]int{l}, max)
+		c.Ref, c.ListErr, c.Rogue = Pick(rng, tagRefs), false, wins
+		emit(c)
+	}
+	for _, l := range [][]int{{kG, kG, kG}, {kBd, kG, kBd, kG}, {kBd, kBd, kBd, kBd}, {kU, kG, kG}, {kNO, kG, kBd}, {kBd, kU, kG, kBd, kG}} {
+		n := len(l)
+		for max := 1; max <= n+1; max++ {
+			rogue(l, [][2]int{{0, n}, {0, n}}, int64(max))                         // the whole listing twice
+			rogue(l, [][2]int{{0, 1}, {0, n}}, int64(max))                         // first element, then everything again
+			rogue(l, [][2]int{{n - 1, 1}, {0, n - 1}, {0, 0}, {1, n - 1}}, int64(max)) // out of order, with an empty page
+			ones := [][2]int{}
+			for k := 0; k < n; k++ {
+				ones = append(ones, [2]int{k, 1})
+			}
+			rogue(l, append(ones, ones...), int64(max)) // one by one, twice
+		}
+	}
+	nX := 60
+	if !quick {
+		nX = 2000
+	}
+	for k := 0; k < nX; k++ {
+		n := 2 + rng.Intn(6)
+		l := make([]int, n)
+		for i := range l {
+			switch {
+			case rng.Chance(1, 2):
+				l[i] = kBd
+			case rng.Chance(1, 2):
+				l[i] = kG
+			default:
+				l[i] = rng.Intn(4)
+			}
+		}
+		var wins [][2]int
+		for j := 2 + rng.Intn(4); j > 0; j-- {
+			st := rng.Intn(n)
+			wins = append(wins, [2]int{st, rng.Intn(n - st + 1)})
+		}
+		rogue(l, wins, int64(1+rng.Intn(n+2)))
 	}
 
 	// E. the real OCI-layout repository
